@@ -18,7 +18,8 @@ def run(chk):
     corpus_common.apply(chk, PID)
     for name, title in (("F7", "ShadowTime (a local variable named time)"), ("F8", "Nested (a directive inside a task literal of another directive)"),
                         ("F12", "DotImport (directives spelled through a dot-import of cff)"),
-                        ("F12b", "DotMixed (a qualified directive and a dot-imported one in one file)")):
+                        ("F12b", "DotMixed (a qualified directive and a dot-imported one in one file)"),
+                        ("F13", "GenNamed (a hand-written source file whose name ends in _gen.go)")):
         verdict, detail = probes.run_probe(name)
         chk.count(1, key=("probe", name))
         chk.cov["correspondence"]["probe_" + name] = verdict
